@@ -21,6 +21,7 @@ CHECKS = {
     "C06": ("c06", {}),
     "C08": ("c08", {}),
     "C18": ("c18", {}),
+    "C14": ("c14", {}),
 }
 
 
